@@ -4,6 +4,7 @@ CONSTANTS
   Masks = {1}
   KSValues = {0}
   Keys = {"k1", "k2"}
+  SnapKeeps = TRUE
   Replicas = {"a"}
   Lens = {0}
   MKLens = {16}
@@ -12,12 +13,14 @@ CONSTANTS
   MaxBatch = 3
   MaxSteps = 10
   MaxFailBatches = 2
-  MaxRestart = 1
+  MaxRestart = 2
   MaxTamper = 2
   MaxEnv = 3
   MaxPause = 2
   MaxSub = 4
   MaxLead = 0
+  MaxSnap = 2
+  MaxInstall = 1
   PubClasses = {"long"}
   Hows = {"b2b"}
   TamperRegs = {"KS"}
